@@ -27,65 +27,10 @@ OTHER_FORMATS = ["%Y-%m-%dT%H:%M:%S%z", "%Y-%m-%dT%H:%M:%S%.3f%z", "%d/%b/%Y:%T 
 
 
 # ------------------------------------------------------------------------------------------------
-# function descriptors: {"fn": name, ...optional args as JSON values...}
-#   -> VRL source (arguments read from event fields, so they are runtime-typed) and Gallina term
+# function descriptors: {"fn": name, ...optional args as JSON values...} -> Gallina term
+# (the harness turns the same descriptor into VRL source: arguments are read from event fields, so they
+#  are runtime-typed)
 # ------------------------------------------------------------------------------------------------
-
-def vrl_str(s):
-    return '"' + s.replace("\\", "\\\\").replace('"', '\\"') + '"'
-
-
-def src_of(fn, arg):
-    n = fn["fn"]
-    if n == "format_int":
-        return "format_int!(%s%s)" % (arg, ", .b" if "base" in fn else "")
-    if n == "parse_int":
-        return "parse_int!(%s%s)" % (arg, ", .pb" if "base" in fn else "")
-    if n in ("ip_aton", "ip_ntoa", "ip_pton", "ip_ntop", "ip_to_ipv6", "ipv6_to_ipv4", "to_entries", "from_entries"):
-        return "%s!(%s)" % (n, arg)
-    if n == "flatten":
-        s = "flatten!(%s" % arg
-        if "sep" in fn:
-            s += ", separator: .s"
-        if fn.get("except"):
-            s += ", except: [%s]" % ", ".join(vrl_str(k) for k in fn["except"])
-        return s + ")"
-    if n == "unflatten":
-        s = "unflatten!(%s" % arg
-        if "sep" in fn:
-            s += ", separator: .us"
-        if "recursive" in fn:
-            s += ", recursive: .r"
-        return s + ")"
-    if n in ("to_unix_timestamp", "from_unix_timestamp"):
-        return '%s!(%s, unit: "%s")' % (n, arg, fn["unit"])
-    if n == "format_timestamp":
-        return "format_timestamp!(%s, .f)" % arg
-    if n == "parse_timestamp":
-        return "parse_timestamp!(%s, .pf)" % arg
-    raise ValueError(n)
-
-
-def event_fields(fn):
-    n = fn["fn"]
-    d = {}
-    if n == "format_int" and "base" in fn:
-        d["b"] = fn["base"]
-    if n == "parse_int" and "base" in fn:
-        d["pb"] = fn["base"]
-    if n == "flatten" and "sep" in fn:
-        d["s"] = fn["sep"]
-    if n == "unflatten":
-        if "sep" in fn:
-            d["us"] = fn["sep"]
-        if "recursive" in fn:
-            d["r"] = fn["recursive"]
-    if n == "format_timestamp":
-        d["f"] = fn["fmt"]
-    if n == "parse_timestamp":
-        d["pf"] = fn["fmt"]
-    return d
-
 
 def coq_optv(fn, key):
     return "(Some %s)" % coq_value(fn[key]) if key in fn else "None"
@@ -117,12 +62,8 @@ def coq_fn(fn):
 
 
 def mk(op, f, g, x):
-    ev = {"x": x}
-    ev.update(event_fields(f))
-    if g:
-        ev.update(event_fields(g))
-    return {"op": op, "f": f, "g": g, "x": x, "fwd": src_of(f, ".x"), "back": src_of(g, ".y") if g else None,
-            "event": jo(list(ev.items()))}
+    """a case: the harness (harness/src/bin/pairs.rs) writes the VRL sources and the event from f, g and x"""
+    return {"op": op, "f": f, "g": g, "x": x}
 
 
 def coq_step(j):
